@@ -1017,10 +1017,39 @@ def oracle_C15(ctx, i):
 # ------------------------------------------------------------------------------------------------
 # C19: third-party types and the unknown builder
 
+def oracle_helper(I, meta):
+    """C19: the public writer helpers for all their parameters"""
+    out = []
+    nm = meta["name"]
+    if nm == "write_header":
+        L, cnt, pad, pt = meta["len"], meta["count"], meta["padding"], meta["pt"]
+        if L >= 4 and L % 4 == 0 and cnt <= 31 and L <= 262144:
+            if I.get("res") != "ok:4": out.append(f"write_header_unchecked returned {I.get('res')} on a {L}-byte buffer")
+            elif "buf" in I:
+                got = unhex(I["buf"]); before = fill_bytes(L, meta["fill"])
+                want = gen.hdr(pt, cnt, L, pad > 0)
+                if got[:4] != want: out.append(f"header written {got[:4].hex()} but RFC 3550 says {want.hex()} (type {pt}, padding {pad}, count {cnt}, {L} bytes)")
+                if got[4:] != before[4:]: out.append("write_header_unchecked touched bytes beyond the header")
+    elif nm == "write_padding":
+        L, pad = meta["len"], meta["padding"]
+        if pad <= L:
+            if I.get("res") != f"ok:{pad}": out.append(f"write_padding_unchecked({pad}) returned {I.get('res')} on a {L}-byte slice")
+            elif "buf" in I:
+                got = unhex(I["buf"]); before = fill_bytes(L, meta["fill"])
+                if got[:pad] != gen.trailer(pad): out.append(f"padding trailer written {got[:pad][-8:].hex()} is not {pad - 1} zeros and the count")
+                if got[pad:] != before[pad:]: out.append(f"write_padding_unchecked({pad}) changed bytes beyond the {pad} it reports as written")
+    elif nm == "check_padding":
+        want = "ok" if meta["padding"] % 4 == 0 else f"err:InvalidPadding({meta['padding']})"
+        if I.get("res") != want: out.append(f"check_padding({meta['padding']})={I.get('res')}, expected {want}")
+    return out
+
+
 def oracle_C19(ctx, i):
     I, meta = ctx.I[i], ctx.metas[i]
     out = []
     op = meta.get("op")
+    if op == "helper":
+        return oracle_helper(I, meta)
     if op == "parse" and isinstance(meta["kind"], (tuple, list)):
         b = meta["bytes"]; mn, pt = meta["kind"][2], meta["kind"][1]
         ok = framed(b, mn, pt)
